@@ -64,18 +64,20 @@ def run(ck):
     ck.require_response("P2.inm-overrides-ims", pc, if_none, True, ev_assign("RequestFlags::ims", E.m_const(0)), "flags.ims = false", until=ev_call(SE + "hasIfNoneMatchEtag"))
     ck.require_response("P2.inm-overrides-ims", pc, if_none, True, ev_call("HttpHeader::delById", arg={0: E.m_const(hdr["IF_MODIFIED_SINCE"])}), "delById(IF_MODIFIED_SINCE)")
 
-    ck.rule("P3 sendNotModifiedOrPreconditionFailedError: sendNotModified() only with method == GET or HEAD, sendPreconditionFailedError() only with both false; "
+    ck.rule("P3 ENUMTABLE(sendNotModifiedOrPreconditionFailedError, per Http::_method_t enumerator): sendNotModified() reachable only for GET and HEAD, sendPreconditionFailedError() only for the others; "
             "sendNotModified builds its reply by freshestReply().make304() and make304 sets status scNotModified; WHO(sendNotModified, sendPreconditionFailedError, sendNotModifiedOr...)")
     either = facts.fn(CRC + "sendNotModifiedOrPreconditionFailedError")
-    is_m = lambda n: E.m_cmp("==", E.m_is_mem("HttpRequest::method"), E.m_const(meth[n])) | (E.m_calls("HttpRequestMethod::operator==") & E.M(lambda t: meth[n] in [E.const(a) for a in E.strip(t).get("a", [])], n))
-    for n in ("METHOD_GET", "METHOD_HEAD"):
-        ck.need(ck.trigger_edges(either, is_m(n), True) or ck.trigger_edges(either, is_m(n), False), "C14: sendNotModifiedOrPreconditionFailedError no longer tests method == %s" % n)
-    efl = ck.flow(either, assume=[(is_m("METHOD_GET"), False), (is_m("METHOD_HEAD"), False)])   # the `||` is one branch condition in the CFG: decide it by assumption
+    is_m = lambda c: E.m_cmp("==", E.m_is_mem("HttpRequest::method"), E.m_const(c))
+    methods = {n: v for n, v in meth.items() if n.startswith("METHOD_") and n != "METHOD_ENUM_END"}
+    ck.need(any(ck.trigger_edges(either, is_m(v), True) or ck.trigger_edges(either, is_m(v), False) for v in methods.values()), "C14: sendNotModifiedOrPreconditionFailedError no longer tests the request method")
     ck.sites(ck.flow(either), send304, "sendNotModified()", 1)
-    ck.require_unreachable("P3.304-only-for-get-head", efl, send304, "sendNotModified()", "method is neither GET nor HEAD", why="(RFC 7232 3.2: other methods get 412)")
-    efl = ck.flow(either)
-    for n in ("METHOD_GET", "METHOD_HEAD"):
-        ck.require_fact("P3.304-only-for-get-head", efl, send412, is_m(n), False, "sendPreconditionFailedError()")
+    ck.sites(ck.flow(either), send412, "sendPreconditionFailedError()", 1)
+    for n, k in sorted(methods.items()):   # ENUMTABLE: decide every `method == X` atom for each enumerator in turn
+        efl = ck.flow(either, assume=[(is_m(v), v == k) for v in set(methods.values())])
+        if n in ("METHOD_GET", "METHOD_HEAD"):
+            ck.require_unreachable("P3.304-only-for-get-head", efl, send412, "sendPreconditionFailedError()", "method == %s" % n)
+        else:
+            ck.require_unreachable("P3.304-only-for-get-head", efl, send304, "sendNotModified()", "method == %s" % n, why="(RFC 7232 3.2: methods other than GET/HEAD get 412)")
     snm = facts.fn(CRC + "sendNotModified")
     nfl = ck.flow(snm)
     made = ck.m_result_of(snm, "HttpReply::make304")
@@ -107,7 +109,7 @@ def run(ck):
 
     # ------------------------------------------------------------------ E: validator comparison plumbing
     ck.rule("E1 StoreEntry::hasIfMatchEtag reads getList(IF_MATCH) and compares strongly (hasOneOfEtags(.., false)); hasIfNoneMatchEtag reads getList(IF_NONE_MATCH); hasOneOfEtags calls "
-            "etagIsWeakEqual only with allowWeakMatch T and etagIsStrongEqual only with it F, both only after etagParseInit() T; etagIsStrongEqual = !tag1.weak && !tag2.weak && etagStringsMatch")
+            "etagIsWeakEqual only with allowWeakMatch T and etagIsStrongEqual only with it F, both only after etagParseInit() T; etagIsStrongEqual reaches etagStringsMatch() only with tag1.weak F and tag2.weak F and returns true only through it")
     for fname, h, weak in ((SE + "hasIfMatchEtag", "IF_MATCH", 0), (SE + "hasIfNoneMatchEtag", "IF_NONE_MATCH", None)):
         f = facts.fn(fname)
         ffl = ck.flow(f)
@@ -127,14 +129,14 @@ def run(ck):
     ck.require_fact("E1.weak-only-if-allowed", hfl, ev_call("etagIsStrongEqual"), E.m_is_ref(weak_param[0]), False, "etagIsStrongEqual()")
     ck.require_fact("E1.compare-parsed-tags", hfl, ev_call({"etagIsWeakEqual", "etagIsStrongEqual"}), E.m_calls("etagParseInit"), True, "etagIs*Equal()", min_sites=2)
     strong = facts.fn("etagIsStrongEqual")
-    for s in ck.sites(ck.flow(strong), ev_return(), "return", 1):
-        leaves = conj(s.ev.get("x"))
-        neg_weak = [l for l in leaves if l.get("k") == "un" and l.get("op") == "!" and E.m_is_mem("ETag::weak")(l.get("e"))]
-        roots = {E.strip(E.strip(l["e"]).get("b", {})).get("d") for l in neg_weak}
-        if len(leaves) == 3 and len(roots) == 2 and roots == {p["d"] for p in strong.params} and any(E.m_calls("etagStringsMatch")(l) for l in leaves):
-            ck.ok("E1.strong-excludes-weak-tags", s.where(), "etagIsStrongEqual = !tag1.weak && !tag2.weak && etagStringsMatch(tag1, tag2)")
-        else:
-            ck.violation("E1.strong-excludes-weak-tags", "E1|etagIsStrongEqual|result-expr", s.where(), "etagIsStrongEqual returns %s" % E.key(s.ev.get("x")))
+    ck.need(len(strong.params) == 2, "C14: etagIsStrongEqual signature changed")
+    sfl = ck.flow(strong)
+    for p in strong.params:   # short-circuit evaluation: the string comparison is reached only past both weakness tests, whatever the statement shape
+        ck.require_fact("E1.strong-excludes-weak-tags", sfl, ev_call("etagStringsMatch"), E.m_is_mem("ETag::weak") & E.m_mentions(p["d"]), False, "etagStringsMatch()",
+                        why="(a weak entity-tag would satisfy a strong comparison: If-Match / ranged If-None-Match)")
+    for s in ck.sites(sfl, ev_return(), "return", 1):   # a true result must come from the string comparison
+        ck.need(E.const(s.ev.get("x")) == 0 or any(E.m_calls("etagStringsMatch")(l) for l in conj(s.ev.get("x"))),
+                "C14: etagIsStrongEqual returns %s, which is not a conjunction with etagStringsMatch()" % E.key(s.ev.get("x")))
 
     ck.rule("E2 StoreEntry::modifiedSince: `return false` only with lastModified() >= 0 and !(mod_time > ims) established; `return true` only with mod_time < 0 or mod_time > ims")
     ms = facts.fn(SE + "modifiedSince")
